@@ -418,6 +418,15 @@ fn check_find_n(l: &mut Local, z: &ZoneSpec, tz: TimeZoneRef<'_>, q: &Search, al
         let input = || format!("DateTime::find_n(buffer of {} slots, {}) on {}", n, q.describe(), z.describe());
         calls += 1;
         let r = facade::find_n(&mut buf, q.y, q.mo, q.d, q.h, q.mi, q.s, q.ns, tz);
+        let (nalloc, bytes) = facade::last_find_n_allocations();
+        if nalloc > 0 {
+            l.violation("find_n: the allocation-free search allocates", input(), "0 heap allocations inside DateTime::find_n".into(), format!("{} allocations, {} bytes", nalloc, bytes));
+        } else {
+            l.class("no_allocation_inside_find_n");
+        }
+        if z.types.len() > 8 {
+            l.class("zone_with_more_than_8_types");
+        }
         match (r, alloc) {
             (Ok(res), Ok(full)) => {
                 let m = n.min(k);
@@ -668,7 +677,7 @@ pub fn run_which(ctx: &Ctx, which: Which) -> Report {
             "leap_table",
             "earliest_latest_through_a_reused_buffer",
         ],
-        Which::C17 => vec!["k=0", "k=1", "k=2", "k>=3", "buffer_empty", "buffer_smaller_than_k", "buffer_larger_than_k", "stale_slot_preserved", "error_case", "error_while_an_entry_is_built", "error_after_an_earlier_result", "error_on_the_first_result"],
+        Which::C17 => vec!["k=0", "k=1", "k=2", "k>=3", "buffer_empty", "buffer_smaller_than_k", "buffer_larger_than_k", "stale_slot_preserved", "error_case", "error_while_an_entry_is_built", "error_after_an_earlier_result", "error_on_the_first_result", "no_allocation_inside_find_n", "zone_with_more_than_8_types"],
     };
     if let Err(e) = crate::mon::c03::self_tests() {
         rep.inconclusive.push(format!("model self-test failed: {}", e));
@@ -822,6 +831,39 @@ pub fn run_which(ctx: &Ctx, which: Which) -> Report {
             }
             l.op_n("DateTime::find / find_n (range ends)", calls);
             l.distinct_hash(zone_hash(&z, -2));
+        });
+        // wl 8: zones with many local time types and long tables (9..=60 types, one transition every few hours cycling
+        // through them, with or without a fixed rule): per-type scratch space must not come from the heap
+        run_cases(ctx, &mut rep, 8, ctx.n(1500, 30_000), |l, rng, _| {
+            let nt = rng.range(9, 60) as usize;
+            let types: Vec<TypeSpec> = (0..nt).map(|i| TypeSpec::new((i as i32 - nt as i32 / 2) * 900 + rng.range(0, 60) as i32, i % 2 == 1, Some(&format!("T{:02}", i)))).collect();
+            let ntr = rng.range(1, 200) as usize;
+            let mut t = rng.range(-2_000_000_000, 2_000_000_000);
+            let mut transitions = vec![];
+            for k in 0..ntr {
+                transitions.push((t, if rng.chance(1, 4) { rng.below(nt as u64) as usize } else { (k + 1) % nt }));
+                t += rng.range(1, 40_000);
+            }
+            let rule = if rng.chance(1, 2) { Some(RuleSpec::Fixed(types[transitions[ntr - 1].1].clone())) } else { None };
+            let z = ZoneSpec { transitions, types, leaps: Default::default(), rule };
+            let b = match build(&z) {
+                Ok(b) => b,
+                Err(e) => {
+                    l.harness_errors.push(format!("C17 wl 8: generated zone refused: {} {}", e, z.describe()));
+                    return;
+                }
+            };
+            let tz = b.tz.as_ref();
+            let zm = z.model();
+            let mut stale = vec![None; 6];
+            let mut calls = 0;
+            for _ in 0..6 {
+                let (x, k) = *rng.pick(&z.transitions);
+                let c = x + z.types[k].off as i64 + rng.range(-20_000, 20_000);
+                calls += check_search(l, which, &zm, tz, &Search::from_civil_seconds(c, 17, false), &mut stale);
+            }
+            l.op_n("DateTime::find / find_n (many types)", calls);
+            l.distinct_hash(zone_hash(&z, -3));
         });
     }
     if which != Which::C17 {
